@@ -185,6 +185,16 @@ def run(tier):
                   "return (%s %s %s) %s 2, -(%s %s %s)" % (a, op, b, op, a, op, b), "return {[1] = %s %s %s}" % (a, op, b), "while %s %s %s do break end" % (a, op, b)]
     for a in lits:
         valid += ["return -%s" % a, "return not %s" % a, "return #%s" % a, "return - - %s" % a, "return not not %s" % a]
+    # unary minus over unary minus / not over not over non-constants (redundant parentheses, blanks between the signs)
+    for x in ("x", "t.a", "f()", "(x)", "#t", "x.y.z", "...", "(...)"):
+        valid += ["return - -%s" % x, "return -(-%s)" % x, "return -(-(%s))" % x, "return 1 + - -%s" % x, "return - - -%s" % x, "return not not %s" % x,
+                  "return not (not %s)" % x, "return -(not %s)" % x, "return #(-%s)" % x, "local y = - -%s" % x, "if - -%s then end" % x]
+    # every numeral form of Lua 5.1: decimal, fraction, exponent, hexadecimal up to 64 bits
+    for num in ("0", "00", "007", "1", "3.", ".5", "3.14", "1e2", "1E2", "1e+2", "1e-2", "1E+02", ".5e1", "5.e1", "1e308", "1e309", "1e-400", "9007199254740993",
+                "18446744073709551616", "0x0", "0X0", "0xA", "0xa", "0XaF", "0x10", "0xff", "0x7fffffff", "0x80000000", "0xffffffff", "0x100000000", "0x7fffffffffffffff",
+                "0x8000000000000000", "0xFFFFFFFFFFFFFFFF", "0Xffffffffffffffff", "0x00000000000000001"):
+        valid += ["return %s" % num, "local x = %s" % num, "return -%s" % num, "return %s + 1" % num, "t = {[%s] = %s}" % (num, num), "return %s .. ''" % num,
+                  "if x == %s then end" % num, "for i = %s, %s do end" % (num, num)]
     nvalid0 = len(cases)
     cases += [v.encode() for v in valid]
     rob = load_all(list(enumerate(cases, 1)), "rob", timeout=2400)
